@@ -1,0 +1,50 @@
+//go:build verif
+
+package grace
+
+import "time"
+
+// DumpForVerif returns a copy of the process-wide grace expectations.
+func DumpForVerif() map[string]map[string]time.Time {
+	e := DefaultGraceExpectations
+	e.RLock()
+	defer e.RUnlock()
+	out := map[string]map[string]time.Time{}
+	for k, tc := range e.controllerCache {
+		m := map[string]time.Time{}
+		for a, t := range tc {
+			m[string(a)] = *t
+		}
+		out[k] = m
+	}
+	return out
+}
+
+// LoadForVerif replaces the process-wide grace expectations.
+func LoadForVerif(in map[string]map[string]time.Time) {
+	e := DefaultGraceExpectations
+	e.Lock()
+	defer e.Unlock()
+	e.controllerCache = make(map[string]timeCache)
+	for k, m := range in {
+		tc := timeCache{}
+		for a, t := range m {
+			tt := t
+			tc[Action(a)] = &tt
+		}
+		e.controllerCache[k] = tc
+	}
+}
+
+// AgeForVerif moves every recorded expectation d into the past.
+func AgeForVerif(d time.Duration) {
+	e := DefaultGraceExpectations
+	e.Lock()
+	defer e.Unlock()
+	for _, tc := range e.controllerCache {
+		for a, t := range tc {
+			tt := t.Add(-d)
+			tc[a] = &tt
+		}
+	}
+}
